@@ -209,6 +209,11 @@ func c08SameToken(kind, doc []byte, L int) bool {
 func TestVerif_C08(t *testing.T) {
 	defer vfStats.dump()
 	vfStats.Property = "C08"
+	if !vfDictSweep(t, "C08", "gen", vfDictText(), func(tok string) []c08Case {
+		return []c08Case{{Doc: vfB(`{"` + tok + `":1}`)}, {Doc: vfB(`["` + tok + `"]`)}, {Doc: vfB(`{"a":"` + tok + `","b":[{"` + tok + `":null}]}`)}, {Doc: vfB(` ["x", "` + tok + `" ]`)}}
+	}, c08Check, "each printable literal as key, as value, nested, all cuts") {
+		return
+	}
 	if vfOnlySub("gen") {
 		vfRun(t, vfSub[c08Case]{
 			Prop: "C08", Name: "gen", Checks: vfN(12000, 3000000),
